@@ -772,6 +772,9 @@ def gen_recipe(rng, extra_p=0.5):
         "autoescape": rng.chance(0.25),
         "strict_filters": rng.chance(0.8),
         "template_comments": rng.chance(0.3),
+        # comment delimiters configured although template comments stay off (they must then be inert:
+        # the liquid tag's line-comment marker stays '#')
+        "comment_delims_always": rng.chance(0.3),
         "flags": flags,
         "suppress_blank": rng.chance(0.8),
         "limits": {
@@ -808,6 +811,8 @@ def build_env(recipe, loader=None, delims=None):
     kw = {}
     if recipe["template_comments"]:
         kw = {"template_comments": True, "comment_start_string": d["cs"], "comment_end_string": d["ce"]}
+    elif recipe.get("comment_delims_always"):
+        kw = {"comment_start_string": d["cs"], "comment_end_string": d["ce"]}
     return cls(
         extra=recipe["extra"], tag_start_string=d["ts"], tag_end_string=d["te"],
         statement_start_string=d["os"], statement_end_string=d["oe"],
